@@ -24,7 +24,7 @@ from ufl.formoperators import _handle_derivative_arguments
 
 from ufv import elements as E
 from ufv import num as N
-from ufv.core import proved, undecided, violated
+from ufv.core import crash_text, deliberate, proved, undecided, violated
 from ufv.den import GateauxLayer, World, den
 from ufv.drv import registry_of, rule_case
 from ufv.nodes import templates
@@ -137,6 +137,8 @@ def build(run):
             try:
                 D = expand_derivatives(dF)
             except (ValueError, NotImplementedError, RuntimeError) as ex:
+                if not deliberate(ex):
+                    return violated(f"crash instead of a result or a refusal: {crash_text(ex)}", reproduced=True, backend="exec")
                 return proved("refused", sample=f"{name}: raises {type(ex).__name__}: {ex}"[:200])
             except Exception as ex:  # noqa: BLE001
                 return violated(f"{name}: derivative expansion crashed: {type(ex).__name__}: {ex}", reproduced=True, replay={"form": str(F0)[:500]})
@@ -225,6 +227,8 @@ def build(run):
             try:
                 D = expand_derivatives(dF)
             except (ValueError, NotImplementedError, RuntimeError) as ex:
+                if not deliberate(ex):
+                    return violated(f"crash instead of a result or a refusal: {crash_text(ex)}", reproduced=True, backend="exec")
                 return proved("refused", sample=f"{name}: raises {type(ex).__name__}: {ex}"[:200])
             itgs = D.integrals()
             r = C.Zero() if not itgs else itgs[0].integrand()
@@ -251,6 +255,8 @@ def build(run):
         try:
             D = expand_derivatives(dF)
         except (ValueError, NotImplementedError, RuntimeError) as ex:
+            if not deliberate(ex):
+                return violated(f"crash instead of a result or a refusal: {crash_text(ex)}", reproduced=True, backend="exec")
             return proved("refused", sample=f"raises {type(ex).__name__}: {ex}"[:200])
         # true value: 2 grad(g).grad(h vf) which is non-zero in general; a silent zero is a wrong value
         if not D.integrals() or all(isinstance(it.integrand(), C.Zero) for it in D.integrals()):
